@@ -217,7 +217,9 @@ void h_sorter_add_step(void)
 		struct entry *e = entry_vec_value(s->vec, n0);
 		VG_P("C06", e->len_key == in_lk && e->len_val == 2 && (in_lk < 1 || e->data[0] == in_key[0]) && (in_lk < 2 || e->data[1] == in_key[1]) && e->data[in_lk] == in_val[0] && e->data[in_lk + 1] == in_val[1], "the buffered entry is a copy of the caller's key and value");
 	} else {
+#if !defined(VG_ADD_NE) || VG_ADD_NE > 0
 		VG_REACH("spill reachable");
+#endif
 		VG_P("C06", entry_vec_size(s->vec) == 0 && s->entry_bytes == 0 && reader_vec_size(s->readers) == 1, "after a spill the buffer is empty and the chunk's reader is kept");
 		VG_P("C06", vg_w.adds >= 1 && vg_w.adds <= n0 + 1, "the spilled chunk holds the buffered entries including the new one");
 	}
